@@ -38,6 +38,7 @@ func (ds *dataStore) save(fileName string) (err error) {
 		}
 	}()
 
+	verifPoint("save:created", 0, fileName)
 	enc := gob.NewEncoder(f)
 
 	// write the header
@@ -52,6 +53,7 @@ func (ds *dataStore) save(fileName string) (err error) {
 		return
 	}
 
+	verifPoint("save:header", 0, fileName)
 	// write the data
 	for _, item := range ds.data.buckets {
 		if item == nil {
@@ -99,8 +101,10 @@ func (ds *dataStore) save(fileName string) (err error) {
 		if err != nil {
 			return
 		}
+		verifPoint("save:key", 0, fileName)
 	}
 
+	verifPoint("save:before-close", 0, fileName)
 	return
 }
 
